@@ -3,6 +3,7 @@ pub mod dfa;
 pub mod domains;
 pub mod pathlist;
 pub mod pathops;
+pub mod resolve;
 pub mod selftest;
 pub mod syntax;
 pub mod wmethod;
